@@ -1,10 +1,10 @@
 package props
 
 import (
-	"regexp"
 	"fmt"
 	"go/ast"
 	"go/types"
+	"regexp"
 	"sort"
 	"strings"
 
@@ -80,6 +80,9 @@ func runC09(c *engine.Ctx, tier string) {
 	controllerWiring(c)
 	managerWiring(c)
 	everyOpenPhaseIsServed(c)
+	// what the replay at start-up wakes is the reconciler of the id the event carries: a replayed
+	// transaction without its log index wakes transaction 0, and the real one is never looked at
+	versionStamping(c, "C09.10", pkgStoreTxV2, true, 4)
 }
 
 // returnsNoWake matches a root return that carries neither a re-queue nor an error.
@@ -107,11 +110,19 @@ var watcherTable = []struct {
 }
 
 // watcherMaps: the ids a controller watcher derives from a store event are exactly the frozen ones.
-func watcherMaps(c *engine.Ctx) {
-	o := c.Custom("C09.4", "K-own(watcher bodies)", "each controller watcher sends exactly the frozen set of ids per store event",
+func watcherMaps(c *engine.Ctx) { watcherMapsAs(c, "C09.4", "") }
+
+// watcherMapsAs evaluates the rows of the table whose "pkg.recv" contains only (all when empty).
+func watcherMapsAs(c *engine.Ctx, id, only string) {
+	o := c.Custom(id, "K-own(watcher bodies)", "each controller watcher sends exactly the frozen set of ids per store event, and (store watchers) sends them whatever the event's type or content",
 		"these mappings are what re-enables a reconciliation when another record changes; a dropped or re-targeted mapping strands the records that depended on it")
 	al := engine.NewAliases(c.P, "E", "recv(^eventCh)", "CFGBL", "&topo.Configurable{}@1")
+	n := 0
 	for _, w := range watcherTable {
+		if only != "" && !strings.Contains(w.pkg+"."+w.recv, only) {
+			continue
+		}
+		n++
 		paths, err := c.A.Paths(w.pkg)
 		if err != nil {
 			o.Undecided(w.pkg, err.Error())
@@ -126,6 +137,17 @@ func watcherMaps(c *engine.Ctx) {
 				e := &p.Events[i]
 				if e.Kind == engine.EvSend && e.Chan == "^ch" {
 					got[e.RHS] = c.P.Pos(e.Pos)
+					if w.recv == "TopoWatcher" {
+						continue // topology events are legitimately filtered by kind and aspect
+					}
+					// a store event is forwarded whatever its type and content: the reconcilers rely on
+					// UPDATED events (the write that beat theirs) as much as on CREATED/REPLAYED ones
+					for _, l := range engine.CondsBefore(p, i) {
+						if strings.Contains(l.String(), "recv(^eventCh)") {
+							o.Fail(&engine.Violation{Key: w.pkg + "." + w.recv + "|forwarding depends on the event", Pos: c.P.Pos(e.Pos), Func: w.recv + ".Start",
+								Msg: "the watcher forwards the id only under " + c.Render(l.String()) + ": store events of the other kinds no longer wake the reconciler (a reconciler that lost a write race returns quietly and waits for exactly such an event)"})
+						}
+					}
 				}
 			}
 		}
@@ -154,7 +176,7 @@ func watcherMaps(c *engine.Ctx) {
 			}
 		}
 	}
-	o.Done(len(watcherTable))
+	o.Done(n)
 }
 
 // transientReturned: on every complete path of a reconciler on which a store/topo/plugin call
@@ -468,7 +490,7 @@ func everyOpenPhaseIsServed(c *engine.Ctx) {
 	type ph struct{ name, fn string }
 	for _, x := range []struct {
 		id, pkg, alias, fnPfx string
-		aliases              *engine.Aliases
+		aliases               *engine.Aliases
 	}{
 		{"C09.9/transaction", pkgTransactionCtl, "@T", "controller/v2/transaction.Reconciler.", transactionAliases(c.P)},
 		{"C09.9/proposal", pkgProposalCtl, "@P", "controller/v2/proposal.Reconciler.", proposalAliases(c.P)},
